@@ -84,6 +84,33 @@ int main(void)
     rdn(&subj, OID_O, sizeof(OID_O), 0x0C, "Attacker Ltd", 12);
     rdn(&subj, OID_CN, sizeof(OID_CN), 0x0C, "attacker.example", 16);
 
+    /* honest control: a regular UPN otherName followed by a dNSName */
+    {
+        static const unsigned char upnOid[] = {
+            0x2B, 0x06, 0x01, 0x04, 0x01, 0x82, 0x37, 0x14, 0x02, 0x03
+        };
+        buf_t u = { { 0 }, 0 }, w = { { 0 }, 0 }, v = { { 0 }, 0 };
+
+        tlv(&u, 0x0C, "user@good.example", 17);
+        tlv(&v, 0x06, upnOid, sizeof(upnOid));
+        tlvb(&v, 0xA0, &u);
+        tlvb(&w, 0xA0, &v);
+        tlv(&w, 0x82, "good.example", 12);
+        tlv(&w, 0x87, "\x0a\x00\x00\x01", 4);
+        mkcert(&subj, &w, &cert);
+        printf("== honest control: SAN = { otherName(UPN), dNSName "
+            "good.example, iPAddress 10.0.0.1 } ==\n");
+        if (validate(&cert, "good.example", NAME_TYPE_ANY, &ff, 1) != 0 ||
+            validate(&cert, "10.0.0.1", NAME_TYPE_ANY, &ff, 1) != 0 ||
+            validate(&cert, "victim.com", NAME_TYPE_ANY, &ff, 1) == 0 ||
+            !handshake(&cert, "good.example", 0, 1) ||
+            !handshake(&cert, "good.example", 1, 1))
+        {
+            printf("honest control failed\n");
+            return 2;
+        }
+    }
+
     printf("== variant A: well-formed DER, otherName value with a "
         "high-tag-number identifier ==\n");
     build_san_hightag(&san, "victim.com");
@@ -140,7 +167,9 @@ int main(void)
     }
     if (!bad)
     {
-        printf("no violation observed\n");
+        printf("OK: names hidden inside an otherName value / wrongly tagged "
+            "elements are not accepted; honest otherName+dNSName+iPAddress "
+            "certificate still authenticates\n");
     }
     return bad;
 }
